@@ -1,10 +1,11 @@
 package index
 
 import (
+	"fmt"
 	"log"
 	"os"
-
-	"github.com/spq/pkappa2/internal/tools"
+	"path/filepath"
+	"strings"
 )
 
 func Merge(indexDir string, indexes []*Reader) ([]*Reader, error) {
@@ -16,7 +17,13 @@ func Merge(indexDir string, indexes []*Reader) ([]*Reader, error) {
 			idx := indexes[idxIdx]
 			for wIdx := 0; wIdx <= len(ws); wIdx++ {
 				if wIdx == len(ws) {
-					w, err := NewWriter(tools.MakeFilename(indexDir, "idx"))
+					// The manager stacks index files by name when it starts. Name the
+					// output after the newest input, so that it takes the place of its
+					// inputs in that order: a file named by the current time would be
+					// stacked above (and shadow) the output of an import that was
+					// already running when the merge started but is published later.
+					newest := strings.TrimSuffix(filepath.Base(indexes[len(indexes)-1].filename), ".idx")
+					w, err := NewWriter(filepath.Join(indexDir, fmt.Sprintf("%s.m%d.idx", newest, len(ws))))
 					if err != nil {
 						return err
 					}
